@@ -15,6 +15,7 @@ pub fn dump_crate<'tcx>(tcx: TyCtxt<'tcx>) -> J {
 	let mut fns = Vec::new();
 	let mut statics = Vec::new();
 	let mut aliases = Vec::new();
+	let mut consts = Vec::new();
 
 	let ev = tcx.effective_visibilities(());
 
@@ -41,6 +42,23 @@ pub fn dump_crate<'tcx>(tcx: TyCtxt<'tcx>) -> J {
 				o.put("span", span_j(tcx, tcx.def_span(did)));
 				statics.push(o);
 			}
+			DefKind::Const { .. } | DefKind::AssocConst { .. } => {
+				// named constants of scalar type without generic parameters, evaluated (unoptimised MIR names them)
+				let t = tcx.type_of(did).instantiate_identity().skip_norm_wip();
+				let scalar = t.is_bool() || t.is_integral() || t.is_char();
+				if scalar && tcx.generics_of(did).is_empty() && tcx.generics_of(did).parent_count == 0 {
+					if let Ok(v) = tcx.const_eval_poly(did) {
+						if let Some(si) = v.try_to_scalar_int() {
+							let mut o = J::obj();
+							o.put("path", J::s(tcx.def_path_str(did)));
+							o.put("ty", ty_j(tcx, t));
+							let bits = si.to_bits(si.size());
+							o.put("bits", J::s(format!("{}", bits)));
+							consts.push(o);
+						}
+					}
+				}
+			}
 			DefKind::TyAlias => {
 				let mut o = J::obj();
 				o.put("path", J::s(tcx.def_path_str(did)));
@@ -61,6 +79,7 @@ pub fn dump_crate<'tcx>(tcx: TyCtxt<'tcx>) -> J {
 	root.put("fns", J::Arr(fns));
 	root.put("statics", J::Arr(statics));
 	root.put("aliases", J::Arr(aliases));
+	root.put("consts", J::Arr(consts));
 	root.put("probes", probes(tcx));
 	root
 }
